@@ -19,7 +19,8 @@ def run(chk, name, knobs, n_quick, n_thorough, rule, nontrivial=None, prop_sig=N
     chk.trusted_base = list(TRUSTED)
     chk.prove()
     n = n_thorough if chk.thorough else n_quick
-    hs = list(extra_histories)
+    hs = list(extra_histories) + srvcommon.load_corpus(name)
+    chk.extra['corpus_histories'] = len(hs)
     for _ in range(n):
         cfg, ops = server_hist.gen_history(rng, knobs)
         if tweak:
